@@ -283,10 +283,37 @@ def run_authenticate(ctx, clients, header, form_cred, query_id, assertion, metho
                           "but the failure is not a 401 with WWW-Authenticate", case)
 
 
+def check_readings(ctx):
+    """Model/Transport.v against the three request wrappers: what `request.data` holds for a name, for queries and forms in
+    which names repeat (within the query, within the form, across the two).  `readings_agree` (Proofs/TransportP.v) is about
+    these definitions; this ties them to the code of OAuth2Request, FlaskOAuth2Request and DjangoOAuth2Request."""
+    import urllib.parse as up
+    from impl import transports as T
+    rng = ctx.rng
+    names, vals = ["client_id", "client_secret", "scope", "x"], ["a", "b", "c1", "s 1", ""]
+    for i in range(150 if ctx.tier == "quick" else 2500):
+        q = [(rng.choice(names), rng.choice(vals)) for _ in range(rng.choice([0, 1, 2, 3]))]
+        f = [(rng.choice(names), rng.choice(vals)) for _ in range(rng.choice([0, 1, 2, 3]))]
+        uri = TOKEN_URL + ("?" + up.urlencode(q) if q else "")
+        body = up.urlencode(f)
+        hdr = {"Content-Type": "application/x-www-form-urlencoded"}
+        reqs = {"neutral": OAuth2Request("POST", uri, dict(f), {}),
+                "flask": T.wrap("flask", S.HReq("POST", uri, None, dict(hdr), body)),
+                "django": T.wrap("django", S.HReq("POST", uri, None, dict(hdr), body))}
+        for w, r in reqs.items():
+            for name in names:
+                got = r.data.get(name)
+                mod = ctx.model.call("request_reading", {"wrapper": w, "query": [list(p) for p in q], "form": [list(p) for p in f], "name": name})
+                case = {"request_reading": w, "query": q, "form": f, "name": name}
+                ctx.case(case, ("reading", w, json.dumps(q), json.dumps(f), name), "reading:%s:%s" % (w, "set" if got is not None else "absent"))
+                ctx.compare("request_reading", case, got, mod)
+
+
 def run(ctx):
     m = ctx.model
     rng = ctx.rng
     clients = make_clients()
+    check_readings(ctx)
     ctx.rule = ("extract_basic_authorization on 42 header shapes; ClientAuthentication.authenticate on the product "
                 "Basic header shape x form credentials (12) x permitted-method list (10) x endpoint (4), plus query "
                 "client_id variants and 19 assertion variants (each claim mutated, wrong/other key, malformed, replayed "
